@@ -24,6 +24,7 @@
 #include "stir/Bin.h"
 #include <typeinfo>
 #include <set>
+#include <algorithm>
 
 using namespace vf;
 using namespace stir;
@@ -236,8 +237,22 @@ check_tof(const ProjDataInfo& p)
           stats().maxi("TOF boundary gap/overlap (bins)", std::fabs(hi - lo1) / inc);
           // a gap of even one ulp is a time difference that belongs to no bin (get_tof_bin then warns and returns the
           // first bin): counted, and decided by the round trip of clause (1) which passes through get_tof_bin
+          // FINDING C12-F6: the two limits are stored separately as float (ProjDataInfo.cxx:237-240) and can differ by one ulp;
+          // a time difference at/between them belongs to neither bin and get_tof_bin (ProjDataInfo.inl:78-93) falls through to
+          // "out of range" -> first TOF bin.  With exclusions on the limits are compared with the float tolerance above and the
+          // functional probes are only counted; with VERIF_NO_EXCLUDE=1 every probe must be assigned to bin k or k+1.
           if (hips != lo1ps)
             stats().count("TOF boundaries (ps) not bitwise contiguous");
+          for (double probe : { hips, lo1ps, (hips + lo1ps) / 2 })
+            {
+              const int kb = p.get_tof_bin(probe);
+              const bool ok = kb == k || kb == k + 1;
+              if (!ok && exclusions_on())
+                stats().count("excluded:C12-F6 time difference between two TOF bins assigned to neither");
+              else
+                VF_CHECK(ok, "TOF boundaries not contiguous: the time difference ", probe, " ps between bin ", k, " (high ", hips, ") and bin ", k + 1, " (low ",
+                         lo1ps, ") is assigned to TOF bin ", kb);
+            }
         }
       stats().count("tof bins checked");
     }
@@ -332,6 +347,11 @@ check_noarc(const ProjDataInfoCylindricalNoArcCorr& p, const json& c)
   const int ax_stride = c.value("ax_stride", 1), view_stride = c.value("view_stride", 1);
   const int tmin = p.get_min_tangential_pos_num(), tmax = p.get_max_tangential_pos_num();
   const int kmin = p.get_min_tof_pos_num(), kmax = p.get_max_tof_pos_num();
+  // TOF bins visited by the round trip: all, or (largest TOF scanners only, stride recorded in the case) a strided list that
+  // always contains both ends and the central bin
+  std::vector<int> ks = strided(kmin, kmax, c.value("tof_stride", 1));
+  if (std::find(ks.begin(), ks.end(), 0) == ks.end())
+    ks.push_back(0);
   // geometry constants the class reports against the harness's own
   VF_CHECK(std::fabs(p.get_ring_radius() - g.R) <= 1e-6 * g.R, "ring radius ", p.get_ring_radius(), " != inner radius + DOI ", g.R);
   VF_CHECK(std::fabs(p.get_angular_increment() - PI / g.N) <= 1e-6 * PI / g.N, "angular increment ", p.get_angular_increment(), " != pi/N");
@@ -405,7 +425,7 @@ check_noarc(const ProjDataInfoCylindricalNoArcCorr& p, const json& c)
                       {
                         VF_CHECK(std::fabs(tth - st) <= tol.tantheta_rel * std::fabs(st) + tol.tantheta_abs, "get_tantheta=", tth, " but the detectors of ",
                                  bstr(b0), " give tan(theta)=", st);
-                        if (st != 0)
+                        if (std::fabs(st) > 1e-6)
                           stats().maxi("(2) rel |tantheta - tantheta_det|", std::fabs(tth - st) / std::fabs(st));
                       }
                     else
@@ -437,10 +457,10 @@ check_noarc(const ProjDataInfoCylindricalNoArcCorr& p, const json& c)
                 // (assert in debug builds, uninitialised entry otherwise).  Excluded by construction.
                 if (ties && std::abs(t) == g.N / 2 - 1 && exclusions_on())
                   {
-                    stats().count("excluded:C12-F2 tie between adjacent detectors", kmax - kmin + 1);
+                    stats().count("excluded:C12-F2 tie between adjacent detectors", long(ks.size()));
                     continue;
                   }
-                for (int k = kmin; k <= kmax; ++k)
+                for (int k : ks)
                   {
                     const Bin b(seg, v, ax, t, k, 1.f);
                     const double dt = p.get_tof_delta_time(b);
@@ -547,7 +567,7 @@ check_arc(const ProjDataInfoCylindricalArcCorr& p, const json& c)
                         const double st = mean_diff * g.spacing / chord;
                         VF_CHECK(std::fabs(tth - st) <= tol.tantheta_rel * std::fabs(st) + tol.tantheta_abs, "get_tantheta=", tth, " but the rings of ", bstr(b),
                                  " give tan(theta)=", st);
-                        if (st != 0)
+                        if (std::fabs(st) > 1e-6)
                           stats().maxi("(2) rel |tantheta - tantheta_det|", std::fabs(tth - st) / std::fabs(st));
                       }
                     else
@@ -562,6 +582,14 @@ check_arc(const ProjDataInfoCylindricalArcCorr& p, const json& c)
                 // ---- clause (1): exact.  ProjDataInfoCylindricalArcCorr::get_bin calls error("TODO NO TOF YET") for a
                 // non-zero time difference (ProjDataInfoCylindricalArcCorr.cxx:105), so only the central TOF bin
                 // (time difference 0) is inside the documented domain ----
+                // FINDING C12-F5: for view 0 and a positive azimuthal offset (intrinsic tilt, or the view-mashing offset) the LOR's phi can
+                // come back from the representation change a rounding error BELOW the offset; get_bin then computes
+                // round(to_0_2pi(phi-offset)/sampling) = 2 x num_views and returns view_num == num_views
+                // (assert(bin.view_num() < get_num_views()) in ProjDataInfoCylindricalArcCorr.cxx:125, an out-of-range view in
+                // release builds).  Excluded by construction: view 0 of arc-corrected data with a positive offset.
+                if (v == 0 && p.get_azimuthal_angle_offset() > 0 && exclusions_on())
+                  stats().count("excluded:C12-F5 arc-corrected get_bin, view 0 with positive azimuthal offset");
+                else
                 {
                   const double dt = p.get_tof_delta_time(b);
                   VF_CHECK(dt == 0., "central TOF bin has time difference ", dt);
@@ -631,10 +659,23 @@ check_blocks(const ProjDataInfoGenericNoArcCorr& p, const json& c)
             stats().maxi("(2) blocks |m - m_det| / axial sampling", std::fabs(m - l.m) / spacing);
             VF_CHECK(dphi <= tol.phi_even, "get_phi=", phi, " but the detectors of ", bstr(b), " give phi=", l.phi);
             stats().maxi("(2) blocks |phi - phi_det| (rad)", dphi);
-            VF_CHECK(std::fabs(tth - sgn * l.tantheta) <= tol.tantheta_rel * std::fabs(l.tantheta) + tol.tantheta_abs, "get_tantheta=", tth,
-                     " but the detectors of ", bstr(b), " give tan(theta)=", sgn * l.tantheta, " (s=", s, ")");
-            if (l.tantheta != 0)
-              stats().maxi("(2) blocks rel |tantheta - tantheta_det|", std::fabs(tth - sgn * l.tantheta) / std::fabs(l.tantheta));
+            // FINDING C12-F3: ProjDataInfoGeneric::get_tantheta divides the axial distance of the LOR's end points by the
+            // cylinder DIAMETER 2R instead of their transaxial distance 2 sqrt(R^2-s^2) (ProjDataInfoGeneric.inl:71-77), i.e. it is
+            // too small by sqrt(1-(s/R)^2).  Excluded by construction: with exclusions on only bins with (s/R)^2 < 2e-5 (where both
+            // expressions agree to 1e-5) are compared.
+            {
+              const double rl = std::max(std::hypot(double(c1.x()), double(c1.y())), std::hypot(double(c2.x()), double(c2.y())));
+              const bool affected = l.tantheta != 0 && (l.s / rl) * (l.s / rl) >= 2e-5;
+              if (affected && exclusions_on())
+                stats().count("excluded:C12-F3 generic get_tantheta off-centre");
+              else
+                {
+                  VF_CHECK(std::fabs(tth - sgn * l.tantheta) <= tol.tantheta_rel * std::fabs(l.tantheta) + tol.tantheta_abs, "get_tantheta=", tth,
+                           " but the detectors of ", bstr(b), " give tan(theta)=", sgn * l.tantheta, " (s=", s, ")");
+                  if (l.tantheta != 0)
+                    stats().maxi("(2) blocks rel |tantheta - tantheta_det|", std::fabs(tth - sgn * l.tantheta) / std::fabs(l.tantheta));
+                }
+            }
             // ---- clause (3) ----
             if (-seg >= p.get_min_segment_num() && -seg <= p.get_max_segment_num() && ax >= p.get_min_axial_pos_num(-seg)
                 && ax <= p.get_max_axial_pos_num(-seg))
@@ -650,25 +691,31 @@ check_blocks(const ProjDataInfoGenericNoArcCorr& p, const json& c)
               p.get_LOR(lor, b);
               LORAs2Points<float> lor2;
               VF_CHECK(lor.get_intersections_with_cylinder(lor2, lor.radius()) == Succeeded::yes, "LOR of ", bstr(b), " does not intersect its own cylinder");
-              const Bin nb2 = p.get_bin(lor2, 0.);
-              if (std::getenv("C12_EXPLORE"))
+              // FINDING C12-F4: ProjDataInfoGenericNoArcCorr::get_bin is not an inverse of its own get_LOR: it dynamic_casts the
+              // LOR to LORAs2Points (std::bad_cast for the type get_LOR produces) and looks the two points up in the table of
+              // crystal centres after rounding to 3/2/1 decimals, whereas the LOR's end points lie on a cylinder through the
+              // outer of the two crystals (ProjDataInfoGeneric::get_LOR).  The round trip therefore reports a miss for most bins
+              // and occasionally a bin two tangential positions away.  Excluded by construction for blocks/generic data;
+              // the outcome classes are still counted.
+              if (exclusions_on())
                 {
-                  Result rr = accept_roundtrip(p, b, nb2, false, "two points");
-                  stats().count(rr.failed() ? "explore: blocks 2pt fail" : "explore: blocks 2pt ok");
-                  if (rr.failed() && nb2.get_bin_value() > 0) stats().count("explore: blocks 2pt wrong bin");
+                  const Bin nb2 = p.get_bin(lor2, 0.);
+                  const Result rr = accept_roundtrip(p, b, nb2, false, "two points, blocks");
+                  stats().count(rr.failed() ? (nb2.get_bin_value() > 0 ? "excluded:C12-F4 blocks round trip: wrong bin" : "excluded:C12-F4 blocks round trip: miss")
+                                            : "excluded:C12-F4 blocks round trip: would pass");
                 }
               else
-                VF_TRY(accept_roundtrip(p, b, nb2, false, "two points"));
-              try
                 {
+                  const Bin nb2 = p.get_bin(lor2, 0.);
+                  VF_TRY(accept_roundtrip(p, b, nb2, false, "two points"));
                   const Bin nb = p.get_bin(lor, 0.);
                   VF_TRY(accept_roundtrip(p, b, nb, false, "sinogram coordinates"));
                 }
-              catch (const std::bad_cast&)
-                {
-                  if (!std::getenv("C12_EXPLORE")) throw;
-                  stats().count("explore: blocks bad_cast");
-                }
+              // behind the exclusion: what the function does support -- an LOR through the exact crystal centres of the bin's
+              // detector pair must come back as exactly this bin (uncompressed data: one pair per bin)
+              const Bin nb3 = p.get_bin(LORAs2Points<float>(c1, c2), 0.);
+              VF_CHECK(nb3.get_bin_value() > 0 && nb3.segment_num() == seg && nb3.axial_pos_num() == ax && nb3.view_num() == v && nb3.tangential_pos_num() == t,
+                       "get_bin of the LOR through the crystal centres of ", bstr(b), " returns ", bstr(nb3), " value ", nb3.get_bin_value());
               stats().count("(1) round trips");
             }
           }
@@ -724,17 +771,25 @@ check_arc_correction(const shared_ptr<ProjDataInfo>& noarc_sptr, const json& a)
   if (excl_last && out_edge(omax) < in_hi)
     stats().count("excluded:C12-F1 last arc-corrected bin reached by the input");
   const double out_lo = out_edge(omin), out_hi = out_edge(omax_checked + 1);
-  if (variant == 0)
-    { // documented: "num_arccorrected_bins is chosen such that the new (radial) FOV is slightly larger than the one covered by the original data"
-      VF_CHECK(out_lo <= in_lo && out_hi >= in_hi, "default arc-corrected range [", out_lo, ",", out_hi, "] does not cover the input range [", in_lo, ",", in_hi,
-               "]");
+  if (variant == 0 && imax + 2 <= g.N / 2 && imin - 2 >= -g.N / 2)
+    { // documented (ArcCorrection.h): "num_arccorrected_bins is chosen such that the new (radial) FOV is slightly larger than the
+      // one covered by the original data".  The implementation looks two tangential positions beyond the range, which is only
+      // meaningful while those stay within a quarter turn (sin monotone): asked only then.
+      VF_CHECK(out_lo <= in_lo && out_edge(omax + 1) >= in_hi, "default arc-corrected range [", out_lo, ",", out_edge(omax + 1),
+               "] does not cover the input range [", in_lo, ",", in_hi, "]");
     }
-  // overlap_interpolate ignores overlaps smaller than epsilon = min(average output bin, average input bin)/10000
-  // (overlap_interpolate.inl:83-86 "find small number for comparisons"): an output bin can lose at most its first and its last
-  // overlap, an input bin likewise -> the tolerance terms 2 eps/delta and 2 eps sum(in) below.  Float accumulation over
-  // <= ~1000 terms adds <= ~2e-5 relative.
+  // Tolerances of clause (4), derived from the implementation's documented numerics:
+  //  * overlap_interpolate ignores overlaps smaller than epsilon = min(average output bin, average input bin)/10000
+  //    (overlap_interpolate.inl:83-86 "find small number for comparisons"): an output bin can lose at most its first and its last
+  //    overlap, an input bin likewise -> terms 2 eps/delta (uniformity) and 2 eps sum(in) (integral);
+  //  * ArcCorrection keeps the bin edges as float: an edge at distance e from the centre is off by <= 6e-8 e, the width of an
+  //    output bin by <= 1.2e-7 e, while the result is divided by the exact sampling -> term edge_rel = 2.4e-7 max|edge| / delta
+  //    (2x margin);  float accumulation over the <= ~1000 overlaps of a row: 1e-5.
   const double eps = std::min((out_edge(omax + 1) - out_lo) / (omax - omin + 1), (in_hi - in_lo) / (imax - imin + 1)) / 10000.;
-  const double edge_tol = 1e-6 * g.R + 1e-5 * delta; // float rounding of the edges inside STIR
+  const double max_edge = std::max(std::max(std::fabs(out_lo), std::fabs(out_edge(omax + 1))), g.R);
+  const double edge_rel = 2.4e-7 * max_edge / delta;
+  const double tol_uniform = 2 * eps / delta + edge_rel + 1e-5;
+  const double edge_tol = 1e-6 * g.R + 1e-5 * delta; // float rounding of the edges: "fully covered" is decided with this margin
   SplitMix rng(a.value("seed", uint64_t(1)));
   const int nviews = pn.get_num_views();
 
@@ -776,14 +831,15 @@ check_arc_correction(const shared_ptr<ProjDataInfo>& noarc_sptr, const json& a)
             {
               ++covered;
               const double rel = std::fabs(o - consts[v]) / consts[v];
-              VF_CHECK(rel <= 2 * eps / delta + 2e-5, "arc correction of the constant row ", consts[v], " gives ", o, " at fully covered output bin ", t, " (view ", v,
+              VF_CHECK(rel <= tol_uniform, "arc correction of the constant row ", consts[v], " gives ", o, " at fully covered output bin ", t, " (view ", v,
                        ", rel. error ", rel, ")");
               stats().maxi("(4) uniform row: max rel error on covered bins", rel);
+              stats().maxi("(4) uniform row: max rel error / tolerance", rel / tol_uniform);
             }
           else if (outside)
             VF_CHECK(o == 0., "arc correction gives ", o, " at output bin ", t, " outside the input range");
           else
-            VF_CHECK(o >= 0. && o <= consts[v] * (1 + 2e-5), "arc correction of the constant row ", consts[v], " gives ", o, " at partially covered output bin ", t);
+            VF_CHECK(o >= 0. && o <= consts[v] * (1 + tol_uniform), "arc correction of the constant row ", consts[v], " gives ", o, " at partially covered output bin ", t);
         }
       // integral over s preserved over the covered range
       for (int which = 0; which < 2; ++which)
@@ -802,11 +858,14 @@ check_arc_correction(const shared_ptr<ProjDataInfo>& noarc_sptr, const json& a)
               total += double(in[v][j]) * (in_edge(j + 1) - in_edge(j));
             }
           // edges inside STIR are float: each input value may gain/lose edge_tol at the two ends of the covered range
-          const double tolI = 2 * eps * sum_in_vals + 2e-5 * total + 2 * edge_tol * (std::fabs(double(in[v][imin])) + std::fabs(double(in[v][imax])) + 10.);
+          const double tolI = 2 * eps * sum_in_vals + (edge_rel + 1e-5) * total + 2 * edge_tol * (std::fabs(double(in[v][imin])) + std::fabs(double(in[v][imax])) + 10.);
           VF_CHECK(std::fabs(sum_out - sum_in) <= tolI, "arc correction does not preserve the integral over s (view ", v, which ? ", random row" : ", constant row",
                    "): out ", sum_out, " in ", sum_in, " tolerance ", tolI);
           if (total > 0)
-            stats().maxi("(4) integral: max |out-in| / total", std::fabs(sum_out - sum_in) / total);
+            {
+              stats().maxi("(4) integral: max |out-in| / total", std::fabs(sum_out - sum_in) / total);
+              stats().maxi("(4) integral: max |out-in| / tolerance", std::fabs(sum_out - sum_in) / tolI);
+            }
         }
     }
   // the viewgram interface must do the same per row
@@ -888,6 +947,8 @@ check(const json& c)
   return Result::pass();
 }
 
+void set_strides(json& c, double budget);
+
 json
 gen_arc(Src& s, int ntang_in)
 {
@@ -905,8 +966,8 @@ gen(Src& s, int size)
 {
   json c;
   vg::ScannerOpts so;
-  so.max_ndet = size < 30 ? 24 : (size < 70 ? 64 : 128);
-  so.max_rings = size < 30 ? 3 : (size < 70 ? 6 : 9);
+  so.max_ndet = size < 20 ? 24 : (size < 45 ? 64 : (size < 75 ? 128 : 256));
+  so.max_rings = size < 20 ? 3 : (size < 45 ? 6 : (size < 75 ? 9 : 12));
   so.allow_blocks = true;
   so.allow_predefined = false;
   c["scanner"] = vg::gen_scanner(s, so);
@@ -934,13 +995,133 @@ gen(Src& s, int size)
     }
   if (cyl)
     c["arc"] = gen_arc(s, sc->get_max_num_non_arccorrected_bins());
+  set_strides(c, 3e6); // generated scanners are small: strides stay 1 except for many TOF bins x many rings
   return c;
 }
 
+// strides for the largest configurations: work ~ bins x (1 + 0.6 x TOF bins visited); strides are odd so that both
+// parities of the axial position (direct/cross planes of compressed data) and of the view keep being visited
+void
+set_strides(json& c, double budget)
+{
+  shared_ptr<Scanner> sc = vg::make_scanner(c["scanner"]);
+  if (sc->check_consistency() != Succeeded::yes)
+    return;
+  shared_ptr<ProjDataInfo> p;
+  try
+    {
+      p = vg::make_pdi(sc, c["pdi"]);
+    }
+  catch (...)
+    {
+      return;
+    }
+  int tof_stride = 1;
+  const int ntof = p->get_num_tof_poss();
+  if (ntof > 15)
+    tof_stride = (ntof + 10) / 11;
+  const double ntof_used = std::ceil(double(ntof) / tof_stride) + 1;
+  double sinos = 0;
+  for (int seg = p->get_min_segment_num(); seg <= p->get_max_segment_num(); ++seg)
+    sinos += p->get_num_axial_poss(seg);
+  const bool arc = c["pdi"]["arccorr"].get<bool>();
+  const double per_bin = arc ? 1. : 1 + 0.6 * ntof_used;
+  const double total = sinos * p->get_num_views() * p->get_num_tangential_poss() * per_bin;
+  int ax_stride = 1, view_stride = 1;
+  if (total > budget)
+    {
+      const double f = total / budget;
+      ax_stride = int(std::ceil(std::sqrt(f)));
+      if (ax_stride % 2 == 0)
+        ++ax_stride;
+      view_stride = int(std::ceil(f / ax_stride));
+      if (view_stride % 2 == 0)
+        ++view_stride;
+    }
+  c["ax_stride"] = ax_stride;
+  c["view_stride"] = view_stride;
+  c["tof_stride"] = tof_stride;
+}
+
+// fixed cases: every predefined scanner at a few samplings (strided, see set_strides)
 std::vector<json>
 fixed_cases(int tier)
 {
   std::vector<json> v;
+  struct Cfg
+  {
+    int span, mash, tofmash; // tofmash: 0 non-TOF, 1 smallest valid factor, 2 a larger valid factor
+    bool arc;
+    double arc_bin_rel;
+  };
+  std::vector<Cfg> cfgs = { { 1, 1, 1, false, 1. }, { 3, 2, 2, false, 1. }, { 5, 1, 0, true, 1. } };
+  if (tier == 1)
+    {
+      cfgs.push_back({ 2, 1, 0, false, 1. });
+      cfgs.push_back({ 7, 4, 2, false, 1. });
+      cfgs.push_back({ 4, 3, 1, true, 1.7 });
+      cfgs.push_back({ 11, 1, 1, false, 1. });
+    }
+  const double budget = tier == 1 ? 1.5e7 : 5e5;
+  for (int t : vg::predefined_types())
+    {
+      shared_ptr<Scanner> sc(new Scanner(static_cast<Scanner::Type>(t)));
+      const int rings = sc->get_num_rings();
+      const int ndet = sc->get_num_detectors_per_ring();
+      const bool cyl = sc->get_scanner_geometry() == "Cylindrical";
+      int ci = 0;
+      for (auto& cf : cfgs)
+        {
+          ++ci;
+          if (!cyl && (cf.arc || ci > 2))
+            continue;
+          json c;
+          c["scanner"] = { { "type", t } };
+          int span = std::min(cf.span, 2 * rings - 1);
+          if (!cyl)
+            span = 1; // see gen(): the LOR code of blocks/generic data reports an error for axial compression
+          int mash = cyl ? cf.mash : 1;
+          while ((ndet / 2) % mash != 0)
+            --mash;
+          int tofmash = 0;
+          if (sc->is_tof_ready() && cyl && cf.tofmash > 0)
+            {
+              // valid factors give an odd number of TOF bins (else ProjDataInfo::set_tof_mash_factor calls error())
+              const int N = sc->get_max_num_timing_poss();
+              std::vector<int> ok;
+              for (int m = 1; m <= N; ++m)
+                if (N % m == 0 && (N / m) % 2 == 1)
+                  ok.push_back(m);
+              if (!ok.empty())
+                tofmash = cf.tofmash == 1 ? ok.front() : ok[std::min(ok.size() - 1, ok.size() / 2 + 1)];
+            }
+          const int max_delta = std::max((span - 1) / 2, std::min(rings - 1, tier == 1 ? rings - 1 : 11));
+          int tang = sc->get_max_num_non_arccorrected_bins();
+          if (cf.arc)
+            {
+              const double bin = sc->get_default_bin_size() * cf.arc_bin_rel;
+              if (!(bin > 0))
+                continue;
+              const double R = double(sc->get_inner_ring_radius()) + double(sc->get_average_depth_of_interaction());
+              tang = std::min(sc->get_default_num_arccorrected_bins(), 2 * (int(std::floor(0.97 * R / bin)) - 1) + 1);
+              if (cf.arc_bin_rel != 1.)
+                c["arc_bin_size"] = float(bin);
+            }
+          c["pdi"] = { { "span", span },     { "max_delta", max_delta }, { "views", ndet / 2 / mash }, { "tang", tang },
+                       { "arccorr", cf.arc }, { "tof_mash", tofmash },    { "trim", json::object() } };
+          if (ci == 2 && cyl)
+            c["pdi"]["trim"] = { { "max_seg", 1 }, { "tang_cut", 1 } };
+          if (cyl)
+            {
+              PrngSrc ps(uint64_t(t) * 131 + uint64_t(ci));
+              c["arc"] = gen_arc(ps, tang);
+              if (!(sc->get_default_bin_size() > 0))
+                c["arc"]["bin_mode"] = 1;
+            }
+          set_strides(c, budget);
+          v.push_back(c);
+        }
+    }
   return v;
 }
 
